@@ -66,21 +66,25 @@ def _merged_mem_update(orig):
         mem = self.memvalue.get(net.op_param[0])
         if not isinstance(mem, SymMem):
             return orig(self, net)
-        snap = mem.arr
+        snap, snap_p = mem.arr, mem.present
 
         def body():
-            mem.arr = snap
+            mem.arr, mem.present = snap, snap_p
             orig(self, net)
-            return mem.arr
+            return mem.arr, mem.present
         paths = explore(body, lazy=True)
-        acc = None
+        acc, acc_p = None, None
         for p in paths:
             if p.exc is not None:
                 if sym.fork(p.cond()):
                     raise p.exc
                 continue
-            acc = p.result if acc is None else z3.If(p.cond(), p.result, acc)
+            arr_, pres_ = p.result
+            acc = arr_ if acc is None else z3.If(p.cond(), arr_, acc)
+            if pres_ is not None:
+                acc_p = pres_ if acc_p is None else z3.If(p.cond(), pres_, acc_p)
         mem.arr = acc if acc is not None else snap
+        mem.present = acc_p if acc_p is not None else snap_p
     _mem_update._vf_orig = orig
     return _mem_update
 
